@@ -21,10 +21,10 @@ from props import yannylib as Y
 PROPERTY = 'C03'
 LEVEL = 'exploration'
 RULE = ('Hypothesis rule-based state machine (one variant per mode: record-array objects / raw=True objects); '
-        'rules = create (write_ndarray_to_yanny of 1-2 generated tables + header), append_rows (1-2 rows to a subset of '
+        'rules = create (write_ndarray_to_yanny of 1-2 generated tables + header, or a harness-written text file with unsized char[] columns opened with yanny()), append_rows (1-2 rows to a subset of '
         'tables, as dict-of-lists or record array, under the upper- or lower-case name, optionally with new pairs), '
         'append_pairs, append_empty, write_copy, write_over_existing (own file or another existing file), '
-        'append_to_missing, reread.  After every op: live object == model, fresh yanny(filename) == model (record and raw '
+        'append_to_missing (a second object whose filename points nowhere; it must raise, create nothing, leave that object textually unchanged; optionally that object is then re-bound to the real file and becomes the live one), reread.  After every op: live object == model, fresh yanny(filename) == model (record and raw '
         'view), file bytes extend the bytes before the op (identical after refused/empty ops), no unknown file appears, '
         'other files untouched, object still bound to its file.  Non-trivial = history with >=1 successful append followed '
         'later by reread/write_copy and >=1 refused operation; distinct = distinct op-sequence hash.')
@@ -72,6 +72,16 @@ class Sim(object):
             grew = fn
             if self.raw:
                 self.obj = call(yanny, fn, raw=True)
+        elif kind == 'create_text':
+            # the history starts from a file somebody else wrote (may hold unsized char[] columns), opened with yanny()
+            self.tables = [dict(t, rows=[list(r) for r in t['rows']]) for t in op['tables']]
+            self.pairs = [[k, Y.pair_text(v)] for k, v in op['hdr']]
+            fn = self.newname()
+            with open(fn, 'w') as f:
+                f.write(Y.render_simple(self.tables, op['hdr']))
+            self.obj = call(yanny, fn, raw=self.raw)
+            self.fn = fn
+            grew = fn
         elif kind == 'append':
             payload = {}
             for it in op['items']:
@@ -127,6 +137,7 @@ class Sim(object):
             payload = {'zz_newkey': 'v'}
             if op.get('rows') and t['rows']:
                 payload[t['name'].upper()] = {c['name']: [self.pyval(c, t['rows'][0][j])] for j, c in enumerate(t['cols'])}
+            text_before = str(other)
             try:
                 call(other.append, payload, allowed=(PydlutilsException,), what='append-missing')
             except PydlutilsException:
@@ -134,7 +145,12 @@ class Sim(object):
             else:
                 raise Violation('append-to-missing-did-not-raise')
             check(not os.path.exists(missing), 'append-created-a-file')
+            check(str(other) == text_before, 'refused-append-changed-the-object', lambda: dict(extra=str(other)[len(text_before):][:200]))
             self.labels.add('refused')
+            if op.get('adopt'):
+                # the object that experienced the refusal is pointed back at the real file and becomes the live object
+                other.filename = self.fn
+                self.obj = other
         elif kind == 'reread':
             self.obj = call(yanny, self.fn, raw=self.raw)
             self.labels.add('reread')
@@ -212,6 +228,10 @@ def classify(case):
                 out.append('append-with-pairs')
         if o['op'] == 'write_over':
             out.append('write-over:' + o['target'])
+        if o['op'] == 'append_missing' and o.get('adopt'):
+            out.append('refused-object-adopted')
+        if o['op'] == 'create_text' and any(c['kind'] == 'V' for t in o['tables'] for c in t['cols']):
+            out.append('char[]-columns')
     return sorted(set(out))
 
 
@@ -258,7 +278,25 @@ def make_machine(raw):
                 Y.fix_last_column(tables)
                 taken = {t['name'].upper() for t in tables}
                 keys = data.draw(st.lists(Y.ident.filter(lambda k: k.upper() not in taken), max_size=2, unique=True))
-                self.step(dict(op='create', tables=tables, hdr=[[k, data.draw(Y.header_value())] for k in keys]))
+                hdr = [[k, data.draw(Y.header_value())] for k in keys]
+                if data.draw(st.integers(0, 2)) == 0:
+                    # start from a text file with unsized char[] columns (each holding a non-empty value)
+                    for t in tables:
+                        for j, c in enumerate(t['cols']):
+                            if c['kind'] == 'S' and data.draw(st.booleans()):
+                                c['kind'] = 'V'
+                                if not t['rows']:
+                                    t['rows'].append([data.draw(Y.cell_strategy(cc)) for cc in t['cols']])
+                                    Y.fix_last_column([t])
+                                flat = [x for r in t['rows'] for x in (r[j] if c['alen'] else [r[j]])]
+                                if not any(flat):
+                                    if c['alen']:
+                                        t['rows'][0][j][0] = 'x'
+                                    else:
+                                        t['rows'][0][j] = 'x'
+                    self.step(dict(op='create_text', tables=tables, hdr=hdr))
+                else:
+                    self.step(dict(op='create', tables=tables, hdr=hdr))
 
             def new_pairs(self, data, maxn):
                 taken_tab = {t['name'].upper() for t in self.sim.tables}
@@ -302,9 +340,9 @@ def make_machine(raw):
             def write_over(self, tgt, which, implicit):
                 self.step(dict(op='write_over', target=tgt, which=which, implicit=implicit))
 
-            @rule(rows=st.booleans())
-            def append_missing(self, rows):
-                self.step(dict(op='append_missing', rows=rows))
+            @rule(rows=st.booleans(), adopt=st.booleans())
+            def append_missing(self, rows, adopt):
+                self.step(dict(op='append_missing', rows=rows, adopt=adopt))
 
             @rule()
             def reread(self):
